@@ -349,9 +349,15 @@ func axisPos(a AxisDef, v int32) float64 {
 		if v < 0 {
 			return float64(v) / -float64(a.Min)
 		}
+		if a.Max <= 0 {
+			return 0
+		}
 		return float64(v) / float64(a.Max)
 	}
-	return 2*float64(v)/float64(a.Max) - 1
+	if a.Max <= a.Min {
+		return 0
+	}
+	return 2*(float64(v)-float64(a.Min))/(float64(a.Max)-float64(a.Min)) - 1
 }
 
 func axisCentre(a AxisDef) int32 {
